@@ -13,6 +13,10 @@
    Out-of-range slice accesses (a Go panic) are unreachable under that invariant; the totalised functions return the
    list unchanged there and the theorem `fix_in_range` states reachability.
 
+   Capacity: limit.NewBucket panics on a negative capacity (make of a negative length); store.Alerts.Set only builds
+   buckets when perAlertLimit > 0, so the theorems about the store assume 1 <= capacity and the harness draws
+   capacities >= 0 (Upsert on capacity 0 returns false, as modelled).
+
    IsStale: `is_stale` is the REPAIRED code (stale iff every tracked item is expired);
             `is_stale_last_slot` is the code as it was at the pinned commit (reads the last array slot) and is
             kept only for the refutation theorem and the corpus witness. *)
